@@ -109,14 +109,14 @@ theorem linesearch_descent (pr : Params α) (c n : Iterate α) (h : linesearchVi
     n.fbe ≤ c.fbe - (pr.lsStrictness * (1 - c.gamma * c.L) / (2 * c.gamma)) * c.pTp
             + (1 + |c.fbe|) * pr.lsTol := by
   unfold linesearchViolated ocp_linesearchViolated at h
-  simp only [eabs_eq_abs, decide_eq_false_iff_not, not_lt] at h
+  simp only [eabs_eq_abs, Bool.not_eq_false', decide_eq_true_eq] at h
   exact h
 
 /-- The quadratic-upper-bound test passed: `ψ(û) ≤ ψ(u) + ∇ψᵀp + (L/2)‖p‖² + (1+|ψ(u)|)·tol`. -/
 theorem qub_holds (pr : Params α) (i : Iterate α) (h : qubViolated pr i = false) :
     i.psiuhat ≤ i.psiu + i.gradPsiTp + (0.5 : α) * i.L * i.pTp + (1 + |i.psiu|) * pr.qubTol := by
   unfold qubViolated ocp_qubViolated at h
-  simp only [eabs_eq_abs, decide_eq_false_iff_not, not_lt] at h
+  simp only [eabs_eq_abs, Bool.not_eq_false', decide_eq_true_eq] at h
   exact h
 
 /-- The envelope is `ψ(u) + ‖p‖²/(2γ) + ∇ψᵀp`. -/
